@@ -209,7 +209,7 @@ func Run(c *gen.Ctx) error {
 				raw = append(raw, string(rr))
 			}
 			term := fmt.Sprintf("{| dc_exec := {| xc_schema := sch; xc_root := \"Query\"%%string; xc_sels := %s; xc_oracle := %s; xc_data := %s; xc_errors := %s; xc_log := %s; xc_recovers := %d%%nat; xc_order := [] |}; dc_payloads := %s |}",
-				selTerms[p.op], p.orc.Coq(), first.DataTerm(), first.ErrorsTerm(), xeng.LogCoq(res.Log), res.Recovers, gen.List(pls))
+				selTerms[p.op], p.orc.Effective(res.Ignored).Coq(), first.DataTerm(), first.ErrorsTerm(), xeng.LogCoq(res.Log), res.Recovers, gen.List(pls))
 			cf.Add(term)
 			descrs = append(descrs, descr{op.query, p.orc, pr.Cfg.Name, raw, ""})
 			stats[fmt.Sprintf("payloads_%d", len(all))]++
@@ -321,7 +321,7 @@ func SingleFaultCases(outDir, prop, monLabel string, probes []xeng.Probe, meta *
 				raw = append(raw, string(rr))
 			}
 			cf.Add(fmt.Sprintf("{| dc_exec := {| xc_schema := sch; xc_root := \"Query\"%%string; xc_sels := %s; xc_oracle := %s; xc_data := %s; xc_errors := %s; xc_log := %s; xc_recovers := %d%%nat; xc_order := [] |}; dc_payloads := %s |}",
-				selTerms[p.op], p.orc.Coq(), first.DataTerm(), first.ErrorsTerm(), xeng.LogCoq(res.Log), res.Recovers, gen.List(pls)))
+				selTerms[p.op], p.orc.Effective(res.Ignored).Coq(), first.DataTerm(), first.ErrorsTerm(), xeng.LogCoq(res.Log), res.Recovers, gen.List(pls)))
 			descrs = append(descrs, descr{op.query, p.orc, pr.Cfg.Name, raw, ""})
 		}
 	}
